@@ -505,6 +505,19 @@ class CallsMixin:
         self.p.used_lemmas = getattr(self.p, 'used_lemmas', set()) | {name}
         return K.NONE
 
+    def b_src_index(self, args, kwargs, node):
+        """src_index(filtered, j): position in the source that element j of a filter comprehension came from."""
+        ent = self.p.seq_pos.get(args[0].terms[1].get_id())
+        if ent is None or ent[0] != 'filter':
+            raise Unsupported('src_index on a sequence that is not the result of a filter comprehension')
+        return K.vint(z3.Select(ent[1], self.as_int(args[1])))
+
+    def b_dst_index(self, args, kwargs, node):
+        ent = self.p.seq_pos.get(args[0].terms[1].get_id())
+        if ent is None or ent[0] != 'filter':
+            raise Unsupported('dst_index on a sequence that is not the result of a filter comprehension')
+        return K.vint(z3.Select(ent[2], self.as_int(args[1])))
+
     def b_last_sorted(self, args, kwargs, node):
         return self.p.last_sorted
 
@@ -738,7 +751,8 @@ class CallsMixin:
         res = K.NONE
         if isinstance(k, K.Seq):
             if name == 'append':
-                upd = K.seq_append(base, args[0])
+                upd = K.seq_append(base, self.coerce_checked(args[0], k.elem, 'append@%s: value not None' % node.lineno, node)
+                                   if isinstance(args[0], V) else args[0])
             elif name == 'extend':
                 other = args[0]
                 if isinstance(other, PyObj) and other.tag == 'emptylist':
